@@ -34,12 +34,21 @@ try:
     TEMPLATES_STATUS = translate_c20_r3.generate(core.REPO, os.path.join(core.COQ, "gen"))
 except Exception as _ex:  # the generator itself broke: same fallback as an unparseable source
     TEMPLATES_STATUS = "unparsed generator-failed: %s" % str(_ex)[:200]
+# round 4: the tables behind the macro names (macros/src/lib.rs entry points, src/lib.rs wrappers and their `[$crate]`,
+# the selector rows of quote_words) -> coq/gen/LitEntryPoints.v, proved in Macro/LitEntryProofs.v (pinned C20_entry_points,
+# C20_dashu_wrappers_pass_crate, C20_static_selector_rows)
+try:
+    import translate_c20_r4
+    ENTRY_STATUS = translate_c20_r4.generate(core.REPO, os.path.join(core.COQ, "gen"))
+except Exception as _ex:
+    ENTRY_STATUS = "unparsed generator-failed: %s" % str(_ex)[:200]
 if os.path.realpath(core.REPO) != os.path.realpath("/repo") and "VERIF_COQ" not in os.environ:
     import atexit
 
     def _restore_templates():
         try:
             translate_c20_r3.generate("/repo", os.path.join(core.COQ, "gen"))
+            translate_c20_r4.generate("/repo", os.path.join(core.COQ, "gen"))
         except Exception:
             pass
 
@@ -56,13 +65,24 @@ LEVEL_TEXT = ("Machine-checked Coq theorems (no size bound). (1) Whole macros re
               "fraction, positive denominator, lowest terms. (2) Token reconstruction: a model of the lexer (proc_macro2 fallback = rustc's "
               "rules for identifiers, number literals with prefixes/fractions/exponents/suffixes, punctuation) - the tokens joined are the "
               "text without white space, nothing dropped or re-ordered; the float macros build the same float however the text is cut "
-              "(`1e5` | `1.` `e5` | `0x1` `.` `8p` `-` `3`). (3) The three code generators (u32 const expression, from_le_bytes, static "
+              "(`1e5` | `1.` `e5` | `0x1` `.` `8p` `-` `3`). Round 4, the other direction (maximal munch): a number or identifier token never "
+              "ends inside a run of letters, digits and `_` (integer literals and identifiers ARE the maximal run, so `a3f`, `0x1F`, `123`, "
+              "`1e5` stay one token); the only lexical errors of the alphabet are radix prefixes without a digit of the radix; every "
+              "sequence of well-formed tokens laid out with white space after each word is lexed back into exactly these tokens, hence "
+              "EVERY text  [+|-]? value [base N]?  reaches the integer macros as sign/value/base and compiles iff the run-time parser "
+              "accepts it, with the same number; every decimal float text and every float text with well-formed prefixes is cut into "
+              "tokens whose text the float macros read; the value tokens of a lexed text contain no slash and no leading sign, so the "
+              "ratio macros build what the run-time ratio parser builds from the same text (no side condition left). (3) The three code generators (u32 const expression, from_le_bytes, static "
               "word arrays for 16/32/64-bit words with LEN and padding) build the parsed magnitude and satisfy from_static_words' "
               "assertions; (4) the quote! templates and guards, regenerated from the source on every run, select the constructors and "
-              "arguments the model's shapes stand for. "
+              "arguments the model's shapes stand for; (5) regenerated tables: each of the 20 proc-macro names calls the front end and flags "
+              "the model is indexed by, every dashu:: wrapper hands over `[$crate]` and reaches the embedded entry point that applies it, "
+              "the DataSelector rows of quote_words use the element type, LEN and DATA of the same converter in the model's order. "
               "Tie to the code: the macro front ends of the working tree are compiled into the harness and run on generated literals "
               "(model fidelity of lexer model, end-to-end as-is models and run-time parser models reported per case); a generated crate "
-              "of real macro invocations is compiled with rustc and run. PARTIAL: rustc's own lexer (only its proc_macro2 transcription "
+              "of real macro invocations - every production of the grammar x every boundary size (32-bit const path, one and two 64-bit "
+              "words, the byte counts where the u16/u32/u64 tables differ), reproducible from the seed - is compiled with rustc and run "
+              "with 64-bit and with 32-bit words, and once more in a crate that knows dashu only under another name. PARTIAL: rustc's own lexer (only its proc_macro2 transcription "
               "is modelled; the crate phase observes rustc), const evaluation, hygiene and the compile errors themselves are observed.")
 LEVEL_NOTE = ("Trusted: Coq kernel, extraction incl. FastZ.v, zarith, harness (its interpreter of the emitted token stream), "
               "proc_macro2's fallback lexer in the harness phase (now also modelled: Macro/LitLexModel.v, compared on every case), "
@@ -70,32 +90,41 @@ LEVEL_NOTE = ("Trusted: Coq kernel, extraction incl. FastZ.v, zarith, harness (i
               "(proved equal to the grammar for any word size), floats C08's fbig_from_str_asis (proved iff the grammar), ratios "
               "C04's constructors plus a transcription of rational/src/parse.rs; C07/C08/C04 tie those models to the code in their "
               "own runs, C20 additionally compares them with the harness' run-time answers.")
-TECHNIQUE = "Coq proof of end-to-end macro models over the cited parser models (C07/C08/C04), a lexer model and regenerated code-generator templates + extracted-model correspondence run on the compiled-in macro front ends + compiled crate of real macro invocations"
-RULE = ("cases = macro {ubig,ibig,fbig,dbig,rbig} x {plain, static_} x {dashu_*, dashu:: (embedded) paths} x literal form "
+TECHNIQUE = "Coq proof of end-to-end macro models over the cited parser models (C07/C08/C04), a lexer model (soundness and maximal-munch completeness) and regenerated code-generator templates / entry-point tables + extracted-model correspondence run on the compiled-in macro front ends + compiled crates of real macro invocations generated from the grammar (64-bit words, 32-bit words, renamed dependency)"
+RULE = ("harness phase: cases = macro {ubig,ibig,fbig,dbig,rbig} x {plain, static_} x {dashu_*, dashu:: (embedded) paths} x literal form "
         "{decimal, 0b/0o/0x prefix, `base N` for N in 2..36, underscores, sign tokens glued or spaced, binary/hex float with "
         "b/p/@ exponents, decimal float with e/E/@ exponents, fraction with optional denominator, ~ marker} x magnitude classes "
         "{0, 1, <2^32, 2^32-1, 2^32, 2^32+1, 63/64/65, 127/128/129, 191/192/193 bits, byte-length boundaries 8k-1/8k/8k+1, "
         "multi-word up to 1000 (thorough 4000) bits; all-ones, powers of two, zero low words, random} plus token sequences "
         "outside the grammar (repeated signs, missing/dangling `/`, stray tokens, groups, bad radix, invalid digits) and texts "
         "the lexer cuts in unexpected places (`1.e5`, `0x1.8p-3`, `1.5e+`, `12e`, exponent signs as punctuation, blanks between "
-        "the pieces). A case is non-trivial when the token loop model and the generator model were both evaluated on it; "
+        "the pieces). Crate phase: productions (macro x static_ x literal form x sign / part) x boundary bit lengths "
+        "(32 33 64 65 128 129 always; two more per production drawn from 1 8 16 17 24 31 40 48 49 56 63 72 96 97 112 127 160 192 193 256 257; "
+        "thorough: all) with all-ones / smallest / random-odd magnitudes, plus the fixed sweeps and random cases. A case is non-trivial when the token loop model and the generator model were both evaluated on it; "
         "asis=same when the lexer model reproduces the tokens, the end-to-end model the built value or refusal, and the run-time "
         "parser model the harness' run-time answer.")
-EXPLANATION = ("Theorems (coq/props/C20.v, 45) are about Macro/LitModel.v (generators, constructors, token loops), Macro/LitRefModel.v "
+EXPLANATION = ("Theorems (coq/props/C20.v, 66) are about Macro/LitModel.v (generators, constructors, token loops), Macro/LitRefModel.v "
                "(the macros end to end over Int/IoModel.v, Float/PartsConstModel.v, Ratio/RatArithModel.v), Macro/LitLexModel.v (lexer) "
-               "and coq/gen/LitTemplates.v (regenerated templates). "
+               "and coq/gen/LitTemplates.v, coq/gen/LitEntryPoints.v (regenerated templates and entry-point / wrapper / selector tables); "
+               "round 4: Macro/LitLexComplete.v, LitSrcComplete.v, LitSrcRatio.v (maximal munch, tokens -> text -> tokens, every literal text "
+               "of the integer grammar, float texts, ratio texts), Macro/LitEntryProofs.v. "
                "Every run pushes generated literals through the front ends of the working tree (compiled into the harness), "
                "interprets the emitted token stream by generator shape, builds the value with the real constructors and lets the "
                "oracle (the extracted Coq model) judge tokens -> reading -> value -> shape -> built value, including rejected "
                "literals, and compare the lexer model, the end-to-end as-is models and the run-time parser models with the "
                "implementation; then a crate of real invocations of all ten macros (and their dashu:: re-exports) is compiled against "
-               "the working tree: invocations that must not compile are checked to fail with a macro panic, the others are run "
-               "and compared with the front-end answers and with run-time parsing.")
+               "the working tree: invocations that must not compile are checked to fail with a macro panic (never "
+               "with a later type or path error; the message class of every such invocation is in the evidence), the others are run "
+               "and compared with the front-end answers and with run-time parsing; the static_ invocations (and a fifth of the others) are "
+               "built and run again with --cfg force_bits=\"32\", the dashu:: invocations again in a crate that renames the dependency. "
+               "Where the harness cannot read the emitted code (a refactored generator) the invocation is still compiled and compared "
+               "with the run-time parser's value.")
 TRUSTED_BASE = [
     "Coq 8.16.1 kernel; vm_compute only in the *_refuted witnesses, non-vacuity examples and the finite flag combinations of the template theorems",
     "extraction: ExtrOcamlBasic + ExtrOcamlZBigInt + coq/extract/FastZ.v; OCaml 4.13.1 + zarith, oracle/common.ml, oracle/driver_c20.ml",
     "harness/src/bin/c20.rs: includes macros/src/parse/*.rs of the working tree, interprets the emitted token stream by matching the generator shapes (asserting every structural detail it relies on) and calls the real constructors",
     "proc_macro2 (fallback mode) as lexer in the harness phase (transcribed in Macro/LitLexModel.v and compared per case); rustc 1.95 / cargo in the crate phase",
+    "tools/translate_c20_r4.py: regular-expression reader of macros/src/lib.rs (entry points), src/lib.rs (macro_rules! wrappers) and quote_words (selector blocks); anything it does not recognise is reported as unparsed",
     "tools/translate_c20_r3.py: reads the quote! bodies, guards and let-bindings of the seven generator functions into coq/gen/LitTemplates.v; the reading of a row's calls as a model shape (int_calls / fbin_calls / fdec_calls / part_calls) is hand-written",
     "the parser models of C07 (Int/IoModel.v), C08 (Float/TextIoModel.v, PartsConstModel.v) and C04 (Ratio/RatArithModel.v) are tied to the code by those properties' own runs",
 ]
@@ -246,14 +275,20 @@ def sign_pieces(rng, signed, neg):
     return [], ""
 
 
-def gen_int_case(rng, tier):
-    signed = rng.chance(1, 2)
-    static = rng.chance(2, 5)
+def pick(fix, key, draw):
+    """the value of a generator choice: drawn from the rng, or fixed by the systematic grid (crate_grid)"""
+    v = draw()
+    return fix[key] if key in fix else v
+
+
+def gen_int_case(rng, tier, **fix):
+    signed = pick(fix, "signed", lambda: rng.chance(1, 2))
+    static = pick(fix, "static", lambda: rng.chance(2, 5))
     emb = rng.chance(1, 4)
-    n = gen_mag(rng, tier)
-    form = gen_form(rng)
+    n = pick(fix, "n", lambda: gen_mag(rng, tier))
+    form = pick(fix, "form", lambda: gen_form(rng))
     text, radix, suffix = digits_text(rng, n, form)
-    neg = signed and rng.chance(1, 2)
+    neg = signed and pick(fix, "neg", lambda: rng.chance(1, 2))
     sp, stext = sign_pieces(rng, signed, neg)
     glued = rng.chance(1, 2)
     pieces = sp + [piece(text, glued and bool(sp))] + suffix
@@ -287,10 +322,10 @@ def gen_bad_int(rng):
     return case("int", flags_str("i" if signed else "u", "s" if static else ""), radix, "".join(body).replace(" ", ""), pieces)
 
 
-def gen_rat_case(rng, tier):
-    static = rng.chance(2, 5)
+def gen_rat_case(rng, tier, **fix):
+    static = pick(fix, "static", lambda: rng.chance(2, 5))
     emb = rng.chance(1, 4)
-    relaxed = rng.chance(2, 5)
+    relaxed = pick(fix, "relaxed", lambda: rng.chance(2, 5))
     k = rng.below(8)
     if k == 0:
         n, d = rng.bits(rng.range(0, 32)), rng.bits(rng.range(1, 32)) | 1
@@ -306,9 +341,11 @@ def gen_rat_case(rng, tier):
         n, d = gen_mag(rng, tier), None
     else:
         n, d = gen_mag(rng, tier), gen_mag(rng, tier) or 1
+    if "n" in fix:
+        n, d = fix["n"], fix["d"]
     if d == 0:
         d = 1
-    form = gen_form(rng)
+    form = pick(fix, "form", lambda: gen_form(rng))
     nneg = rng.chance(1, 2)
     dneg = d is not None and rng.chance(1, 6)
     ntext, radix, suffix = digits_text(rng, n, form)
@@ -375,18 +412,18 @@ def split_point(rng, d):
     return d[:k], d[k:]
 
 
-def gen_fbin_case(rng, tier):
-    static = rng.chance(2, 5)
+def gen_fbin_case(rng, tier, **fix):
+    static = pick(fix, "static", lambda: rng.chance(2, 5))
     emb = rng.chance(1, 4)
-    n = gen_mag(rng, tier)
-    neg = rng.chance(1, 2)
-    hexf = rng.chance(3, 5)
+    n = pick(fix, "n", lambda: gen_mag(rng, tier))
+    neg = pick(fix, "neg", lambda: rng.chance(1, 2))
+    hexf = pick(fix, "hexf", lambda: rng.chance(3, 5))
     d = to_base(n, 16 if hexf else 2)
     if rng.chance(1, 5):
         d = d + "0" * rng.range(1, 12)   # trailing zero digits: normalisation moves them into the exponent
     if rng.chance(1, 8):
         d = "0" * rng.range(1, 3) + d
-    form = rng.below(4)
+    form = pick(fix, "form", lambda: rng.below(4))
     body = d
     if form >= 1:
         a, b = split_point(rng, d)
@@ -418,17 +455,17 @@ def gen_fbin_case(rng, tier):
     return case("fbin", flags_str("s" if static else "", "e" if emb else ""), 0, ("-" if neg else "") + text, pieces)
 
 
-def gen_fdec_case(rng, tier):
-    static = rng.chance(2, 5)
+def gen_fdec_case(rng, tier, **fix):
+    static = pick(fix, "static", lambda: rng.chance(2, 5))
     emb = rng.chance(1, 4)
-    n = gen_mag(rng, tier)
-    neg = rng.chance(1, 2)
+    n = pick(fix, "n", lambda: gen_mag(rng, tier))
+    neg = pick(fix, "neg", lambda: rng.chance(1, 2))
     d = to_base(n, 10)
     if rng.chance(1, 5):
         d = d + "0" * rng.range(1, 12)
     if rng.chance(1, 8):
         d = "0" * rng.range(1, 3) + d
-    form = rng.below(4)
+    form = pick(fix, "form", lambda: rng.below(4))
     if form >= 1:
         a, b = split_point(rng, d)
         a, b = underscores(rng, a), underscores(rng, b, 0)
@@ -514,8 +551,32 @@ def gen_prefix_base(rng):
     return out
 
 
+# round 4 (maximal munch): value words that look like something else - exponent-like (`1e5` is ONE literal token and, with
+# `base 16`, the hex number 0x1e5), literal + suffix (`12e`, `1z`), pseudo prefixes - and texts where the float reading does
+# take more than the word (`1e+5`, `1.5`: one token, no digits of the radix -> compile error)
+MUNCH_WORDS = [("1e5", 16), ("1E5", 15), ("12e", 15), ("9e_", 36), ("0b1e2", 16), ("1_e5", 16), ("1e5_", 16), ("1e55e", 16), ("0x1F", 36),
+               ("a3f", 16), ("_1e5", 16), ("1z", 36), ("0e0", 15), ("7e7", 10), ("1e+5", 16), ("1e-5", 16), ("1.5", 16), ("1e5", 14), ("0E", 15),
+               ("00e1", 16), ("1__e__5", 16), ("e1", 16), ("E", 15), ("1e5e5e5e5e5e5e5e5e5e5", 16)]
+
+
+def gen_munch(rng):
+    out = []
+    for text, b in MUNCH_WORDS:
+        for flags in ("u", "is", "ue"):
+            neg = "i" in flags and rng.chance(1, 2)
+            sp = [piece("-")] if neg else []
+            out.append(case("int", flags, b, ("-" if neg else "") + text, sp + [piece(text, bool(sp) and rng.chance(1, 2)), piece("base"), piece(str(b))]))
+    # every white-space character of the lexer model between the tokens (the pieces carry the white space themselves)
+    for ws in ("\t", "  ", "\x0b", "\x0c", "\r", " \t \r ", "\n"):
+        out.append(case("int", "i", 16, "-a3f", [piece("-" + ws + "a3f" + ws + "base" + ws + "16" + ws)]))
+        out.append(case("int", "us", 0, "0x1F", [piece(ws + "0x1F" + ws)]))
+        out.append(case("rat", "-", 0, "3/4", [piece("3" + ws + "/" + ws + "4")]))
+        out.append(case("fdec", "-", 0, "-1.5e3", [piece("-" + ws + "1.5e3")]))
+    return out
+
+
 def gen_cases(rng, tier, n):
-    out = gen_prefix_base(rng)
+    out = gen_prefix_base(rng) + gen_munch(rng)
     # every hand-written bad token sequence once, in a fixed order, then the random mixture
     for i in range(len(BAD_INT)):
         out.append(gen_bad_int(FixedChoice(rng, i)))
@@ -545,16 +606,103 @@ class FixedChoice:
 
 
 # ------------------------------------------------------------------------------------------------
+# round 4: the systematic part of the crate phase - every production of the literal grammar x every boundary size
+# ------------------------------------------------------------------------------------------------
+# bit lengths of the magnitude / significand / numerator / denominator: both sides of the 32-bit const path, of one and two
+# 64-bit words (DoubleWord), and the sizes where the padded u16/u32/u64 tables of the static word-array generator have
+# different LEN (byte counts 2k+1, 4k+1 .. 4k+3, 8k+1 .. 8k+7) or the same (multiples of 64)
+GRID_BITS_CORE = [32, 33, 64, 65, 128, 129]
+GRID_BITS_MORE = [1, 8, 16, 17, 24, 31, 40, 48, 49, 56, 63, 72, 96, 97, 112, 127, 160, 192, 193, 256, 257]
+
+
+def grid_value(rng, bits, k):
+    """k-th magnitude with exactly `bits` bits: all ones, smallest, random odd"""
+    if bits <= 0:
+        return 0
+    top = 1 << (bits - 1)
+    if k % 3 == 0:
+        return (1 << bits) - 1
+    if k % 3 == 1:
+        return top | (1 if bits > 1 else 0)
+    return top | rng.bits(bits - 1) | 1
+
+
+def grid_productions():
+    """(name, function(rng, tier, bits, k) -> case): one entry per macro x code generator x literal form (x sign for floats)"""
+    prods = []
+    for signed in (False, True):
+        for static in (False, True):
+            for form in ("dec", "0x", "0b", "0o", 16, 36, 2, 10):
+                def f(rng, tier, bits, k, signed=signed, static=static, form=form):
+                    return gen_int_case(rng, tier, signed=signed, static=static, form=form, n=grid_value(rng, bits, k))
+                prods.append(("%s%sbig/%s" % ("static_" if static else "", "i" if signed else "u", form), f))
+    for static in (False, True):
+        for neg in (False, True):
+            for hexf, form in ((True, 0), (True, 2), (False, 0), (False, 3)):
+                def f(rng, tier, bits, k, static=static, neg=neg, hexf=hexf, form=form):
+                    return gen_fbin_case(rng, tier, static=static, neg=neg, hexf=hexf, form=form, n=grid_value(rng, bits, k) | 1)
+                prods.append(("%sfbig/%s%s%d" % ("static_" if static else "", "-" if neg else "+", "hex" if hexf else "bin", form), f))
+            for form in (0, 1, 3):
+                def f(rng, tier, bits, k, static=static, neg=neg, form=form):
+                    n = grid_value(rng, bits, k) | 1     # odd: no factor 10 is moved into the exponent, the size stays
+                    return gen_fdec_case(rng, tier, static=static, neg=neg, form=form, n=n)
+                prods.append(("%sdbig/%s%d" % ("static_" if static else "", "-" if neg else "+", form), f))
+    for static in (False, True):
+        for relaxed in (False, True):
+            for form in ("dec", "0x", 16):
+                for part in ("num", "den", "both", "int"):
+                    def f(rng, tier, bits, k, static=static, relaxed=relaxed, form=form, part=part):
+                        big = grid_value(rng, bits, k)
+                        small = rng.choice([1, 3, 7, (1 << 31) - 1, (1 << 32) - 1, rng.bits(20) | 1])
+                        n, d = {"num": (big, small), "den": (small, big), "both": (big, grid_value(rng, bits, k + 1) | 1), "int": (big, None)}[part]
+                        return gen_rat_case(rng, tier, static=static, relaxed=relaxed, form=form, n=n, d=d)
+                    prods.append(("%srbig/%s%s/%s" % ("static_" if static else "", "~" if relaxed else "", form, part), f))
+    return prods
+
+
+def crate_grid(rng, tier):
+    """productions x boundary sizes; quick: all core sizes and, per production, two of the further sizes drawn from the seed;
+    thorough: the full product.  Reproducible from the seed (the rng is forked per production)."""
+    out = []
+    for name, f in grid_productions():
+        r = rng.fork("grid-" + name)
+        if tier == "thorough":
+            sizes = GRID_BITS_CORE + GRID_BITS_MORE
+        else:
+            light = name.split("/")[0] in ("ubig", "ibig", "fbig", "dbig", "rbig") and not name.endswith(("0x", "dec", "0", "/num"))
+            core = [r.choice(GRID_BITS_CORE[:2]), r.choice(GRID_BITS_CORE[2:])] if light else GRID_BITS_CORE
+            sizes = core + [r.choice(GRID_BITS_MORE) for _ in range(1 if light else 2)]
+        for i, bits in enumerate(sizes):
+            out.append((name, bits, f(r, tier, bits, i + r.below(3))))
+    return out
+
+
+# ------------------------------------------------------------------------------------------------
 # crate phase: real macro invocations compiled by rustc against the working tree
 # ------------------------------------------------------------------------------------------------
 NCRATE = {"quick": 500, "thorough": 2000}
 
-MAIN_HEAD = r'''#![allow(warnings)]
-// generated by /verif/props/C20.py - one macro invocation per line, the line number identifies it
-use dashu_float::{round::mode, DBig, FBig};
-use dashu_int::{IBig, Sign, UBig, Word};
-use dashu_ratio::{RBig, Relaxed};
-type FBin = FBig<mode::Zero, 2>;
+
+def _w(op, flags, text, pieces=None, radix=0):
+    return case(op, flags, radix, text.replace(" ", ""), [piece(x) for x in (pieces or [text])])
+
+
+# witnesses of the seeded changes C20_E (32-bit selector of the static word arrays given the u64 LEN: visible only with 32-bit
+# words, static_ macros, more than 4 bytes) and C20_F (static_dbig! of a negative literal beyond the 32-bit const path took the
+# two's complement bytes of the IBig): always in the crate phase, i.e. compiled and run with 64-bit AND with 32-bit words
+CRATE_WITNESSES = [
+    _w("int", "us", "0x10000000100000001"), _w("int", "is", "-0x1000000010000000100000001", ["-", "0x1000000010000000100000001"]),
+    _w("int", "us", "18446744073709551616"), _w("int", "use", "0xffffffffffffffffffffffff"), _w("int", "is", "-4294967296", ["-", "4294967296"]),
+    _w("fdec", "s", "-12345678901.5", ["-", "12345678901.5"]), _w("fdec", "s", "-1267650600228229401496703205377e-7", ["-", "1267650600228229401496703205377e-7"]),
+    _w("fdec", "s", "-98765432109876.54321", ["-", "98765432109876.54321"]), _w("fdec", "s", "18446744073709551615"), _w("fdec", "se", "-18446744073709551615e3", ["-", "18446744073709551615e3"]),
+    _w("fdec", "s", "-4294967297", ["-", "4294967297"]), _w("fdec", "-", "-12345678901.5", ["-", "12345678901.5"]),
+    _w("fbin", "s", "-0x123456789abcdefp-3", ["-", "0x123456789abcdefp-3"]), _w("fbin", "s", "-0xffffffffffffffffp7", ["-", "0xffffffffffffffffp7"]),
+    _w("fbin", "se", "-0x100000001p0", ["-", "0x100000001p0"]), _w("fbin", "s", "0x8000000000000001p-64"),
+    _w("rat", "s", "0x10000000100000001/3", ["0x10000000100000001", "/", "3"]), _w("rat", "sx", "-3/0x10000000100000001", ["~", "-", "3", "/", "0x10000000100000001"]),
+    _w("rat", "s", "-18446744073709551617/18446744073709551615", ["-", "18446744073709551617", "/", "18446744073709551615"]),
+]
+
+MAIN_HEAD = r'''type FBin = FBig<mode::Zero, 2>;
 fn wh(neg: bool, w: &[Word]) -> String {
     let mut n = w.len();
     while n > 0 && w[n - 1] == 0 { n -= 1; }
@@ -636,6 +784,10 @@ def type_of(case_text, answer):
 def answer_val(answer):
     """value tokens of a harness answer (between `val` and `rt`)"""
     t = answer.split()
+    if "shapeerr" in t and "rt" in t:
+        # the harness could not read the emitted code: the reference is what the run-time parser says
+        r = t[len(t) - 1 - t[::-1].index("rt") + 1:]
+        return " ".join(r) if r and r[0] not in ("err", "na") else None
     if "ok" not in t or "val" not in t:
         return None
     i = len(t) - 1 - t[::-1].index("val")
@@ -684,6 +836,62 @@ def cargo_json(cmd, cwd, env, timeout):
     return rc, errors, other, out
 
 
+MAIN_IMPORTS = """#![allow(warnings)]
+// generated by /verif/props/C20.py - one macro invocation per line, the line number identifies it
+use dashu_float::{round::mode, DBig, FBig};
+use dashu_int::{IBig, Sign, UBig, Word};
+use dashu_ratio::{RBig, Relaxed};
+"""
+# the crate that knows dashu only under another name (Cargo.toml: bignum = { package = "dashu", .. }): every type through it
+RENAMED_IMPORTS = """#![allow(warnings)]
+// generated by /verif/props/C20.py - dashu is known here only as `bignum`
+use bignum::float::{round::mode, DBig, FBig};
+use bignum::integer::{IBig, Sign, UBig, Word};
+use bignum::rational::{RBig, Relaxed};
+"""
+RENAMED_TOML = """[package]
+name = "c20-renamed"
+version = "0.0.0"
+edition = "2021"
+publish = false
+
+[workspace]
+
+[dependencies]
+bignum = { package = "dashu", path = "@REPO@" }
+
+[profile.dev]
+opt-level = 0
+debug = false
+incremental = true
+"""
+
+# message classes of invocations that must not compile (focus 4): which panic of the macro, or who else refused
+MSG_CLASSES = [("Invalid digits or syntax in the literal", "invalid-digit-or-syntax"), ("Missing digits", "no-digits"),
+               ("radix is invalid or unsupported", "unsupported-radix"), ("Radix of different components", "inconsistent-radix"),
+               ("Incorrect syntax, please refer to the docs for acceptable float", "float-syntax"),
+               ("Divisor or denominator must not be zero", "zero-denominator"), ("called `Option::unwrap()` on a `None`", "unwrap-none"),
+               ("assertion", "assertion")]
+
+
+def message_class(errs):
+    text = " || ".join(errs)
+    if "proc macro panicked" in text:
+        for pat, cls in MSG_CLASSES:
+            if pat in text:
+                return "macro-panic:" + cls
+        return "macro-panic:other"
+    if any(w in text for w in ("literal", "digit", "suffix", "exponent", "prefix")) and "mismatched" not in text and "evaluation" not in text:
+        return "rustc-lexer"
+    if "no rules expected" in text or "unexpected end of macro" in text:
+        return "macro-rules"
+    if "mismatched types" in text or "E0308" in text:
+        return "LATER-TYPE-ERROR"
+    if "cannot find" in text or "failed to resolve" in text or "E0433" in text:
+        return "LATER-PATH-ERROR"
+    return "other-compile-error"
+
+
 def extra_phase(tier, seed, exes, oracle):
     res = {"evaluations": 0, "hist": {}, "nontrivial": [], "samples": [], "failures": []}
     hist = res["hist"]
@@ -692,36 +900,48 @@ def extra_phase(tier, seed, exes, oracle):
         hist[k] = hist.get(k, 0) + n
 
     word = TEMPLATES_STATUS.split(" ", 1)[0]
+    word4 = ENTRY_STATUS.split(" ", 1)[0]
     bump("translator_c20_r3:LitTemplates:" + word)
-    res["samples"].append({"fragment": "coq/gen/LitTemplates.v (tools/translate_c20_r3.py from macros/src/parse/{int,float,ratio}.rs)",
-                           "status": TEMPLATES_STATUS,
-                           "tied_by": "C20_templates_int, C20_templates_bytes, C20_templates_float, C20_templates_ratio, C20_templates_thresholds"
-                           if word == "ok" else "correspondence run only (source not parsed; committed copy marked STALE)"})
+    bump("TRANSLATOR_C20_R4:LitEntryPoints:" + word4)
+    stale = "correspondence run only (source not parsed; committed copy marked STALE)"
+    res["samples"].append({"fragments": [
+        {"fragment": "coq/gen/LitTemplates.v (tools/translate_c20_r3.py from macros/src/parse/{int,float,ratio}.rs)", "status": TEMPLATES_STATUS,
+         "tied_by": "C20_templates_int, C20_templates_bytes, C20_templates_float, C20_templates_ratio, C20_templates_thresholds" if word == "ok" else stale},
+        {"fragment": "coq/gen/LitEntryPoints.v (tools/translate_c20_r4.py from macros/src/lib.rs, src/lib.rs, macros/src/parse/common.rs quote_words)", "status": ENTRY_STATUS,
+         "tied_by": "C20_entry_points, C20_entry_points_count, C20_dashu_wrappers_pass_crate, C20_static_selector_rows" if word4 == "ok" else stale}]})
     exe = exes.get("default")
     if exe is None or oracle is None:
         return res
     rng = core.Rng(seed).fork("c20-crate")
     n = NCRATE[tier]
     texts = []
+    origin = {}
     seen = set()
     pool = [l.strip() for l in open(os.path.join(core.ROOT, "corpus", "C20.txt")) if l.strip() and not l.startswith("#")]
-    for t in pool[:17] + gen_cases(rng, tier, n):
+    grid = crate_grid(rng.fork("grid"), tier)
+    grid_cells = {}
+    stream = [(t, None) for t in pool[:17] + CRATE_WITNESSES] + [(t, (name, bits)) for name, bits, t in grid] + [(t, None) for t in gen_cases(rng, tier, n)]
+    for t, cell in stream:
         key = (macro_of(t), source_of(t))
         if key not in seen and "\n" not in key[1]:
             seen.add(key)
             texts.append(t)
+            if cell:
+                origin[t] = cell
     cases = list(enumerate(texts))
     answers = core.run_sharded(exe, cases, case_timeout=30)
     verdicts = core.run_sharded(oracle, [(i, "%s => %s" % (t, answers.get(i, "noanswer"))) for i, t in cases], case_timeout=60)
     items = []  # (line number, case, answer, expected value or None)
     body = []
-    first_line = MAIN_HEAD.count("\n") + 1
+    first_line = (MAIN_IMPORTS + MAIN_HEAD).count("\n") + 1
     for i, t in cases:
         a = answers.get(i, "noanswer")
         v = verdicts.get(i, "noverdict").split()[0]
         if v == "fail" or v == "noverdict":
             res["failures"].append({"case": t, "impl": a, "oracle": verdicts.get(i), "phase": "crate literals through the front end", "replay": "./check C20 --replay <this file>"})
-            continue
+            if " shapeerr " not in a or answer_val(a) is None:
+                continue
+            bump("crate:front-end-unreadable-compiled-anyway")
         if a.startswith("lexerr") or not a.startswith("toks"):
             bump("crate:skipped-lexerr")
             continue
@@ -741,17 +961,19 @@ def extra_phase(tier, seed, exes, oracle):
             body.append("    p(%d, (%s!(%s)).show());" % (ln, mac, src))
             bump("crate:form:expression")
         items.append((ln, t, a, val))
-    main_all = MAIN_HEAD + "\n".join(body) + "\n}\n"
+        if t in origin:
+            shape = a.split(" ok ", 1)[1].split()[0] if " ok " in a else "reject"
+            grid_cells.setdefault(origin[t][0], []).append("%d:%s" % (origin[t][1], shape))
     key = core.sha(core.REPO)
     base = os.path.join(core.CACHE, "c20_crates", key)
     tdir = os.path.join(core.CACHE, "target", "c20crate-" + key)
     env = {"CARGO_NET_OFFLINE": "true", "CARGO_TARGET_DIR": tdir, "RUSTFLAGS": "-Awarnings"}
 
-    def write_crate(name, main_src):
+    def write_crate(name, main_src, toml=CRATE_TOML):
         d = os.path.join(base, name)
         os.makedirs(os.path.join(d, "src"), exist_ok=True)
         os.makedirs(os.path.join(d, ".cargo"), exist_ok=True)
-        for path, txt in ((os.path.join(d, "Cargo.toml"), CRATE_TOML.replace("@REPO@", core.REPO).replace("c20-literals", "c20-" + name)),
+        for path, txt in ((os.path.join(d, "Cargo.toml"), toml.replace("@REPO@", core.REPO).replace("c20-literals", "c20-" + name)),
                           (os.path.join(d, ".cargo", "config.toml"), "[net]\noffline = true\n"),
                           (os.path.join(d, "src", "main.rs"), main_src)):
             if not os.path.exists(path) or open(path).read() != txt:
@@ -761,9 +983,40 @@ def extra_phase(tier, seed, exes, oracle):
             shutil.copy(lock, os.path.join(d, "Cargo.lock"))
         return d
 
+    def assemble(imports, lines_by_ln):
+        """main.rs with the given invocation lines at their line numbers (blank lines elsewhere)"""
+        rows = [lines_by_ln.get(first_line + i, "") for i in range(len(body))]
+        return imports + MAIN_HEAD + "\n".join(rows) + "\n}\n"
+
+    def run_program(path, what):
+        rc, out3 = core.run([path], timeout=300)
+        got = {}
+        for l in out3.splitlines():
+            sp = l.split(" ", 1)
+            if sp[0].isdigit():
+                got[int(sp[0])] = sp[1].strip() if len(sp) > 1 else ""
+        if rc != 0:
+            res["failures"].append({"phase": what, "what": "the program of accepted literals exited with %d" % rc, "log": out3[-800:]})
+        return got
+
+    def compare(got, subset, tag, what):
+        for ln, t, a, val in subset:
+            res["evaluations"] += 1
+            g = got.get(ln)
+            if " shapeerr " in a and t.split()[0] in ("fbin", "fdec") and g is not None:
+                g, val = " ".join(g.split()[:2]), " ".join(val.split()[:2])
+            if g == val:
+                bump("crate:%s:%s" % (tag, t.split()[0]))
+                res["nontrivial"].append("crate[%s] %s %s" % (tag, macro_of(t), source_of(t)))
+            else:
+                res["failures"].append({"case": t, "impl": a, "phase": what, "what": "%s!(%s) built `%s`, the front end (and the specification) say `%s`" % (macro_of(t), source_of(t), g, val)})
+
+    all_lines = dict((first_line + i, l) for i, l in enumerate(body))
+    messages = []      # per must-fail invocation: the message class
+    crates = []
     with core.Lock("c20crate-" + key):
         # 1. everything at once: which invocations does rustc refuse, and why
-        d1 = write_crate("check", main_all)
+        d1 = write_crate("check", assemble(MAIN_IMPORTS, all_lines))
         rc, errors, other, out = cargo_json(["cargo", "check", "--offline", "--message-format=json"], d1, env, 1500)
         if rc != 0 and not errors:
             res["failures"].append({"phase": "crate check", "what": "cargo check failed without an error attributed to an invocation", "log": out[-1500:]})
@@ -771,51 +1024,100 @@ def extra_phase(tier, seed, exes, oracle):
         good = []
         for ln, t, a, val in items:
             errs = errors.get(ln, [])
-            panicked = any("proc macro panicked" in e for e in errs)
+            cls = message_class(errs) if errs else None
             res["evaluations"] += 1
             if val is None:
-                # the front end rejected the literal: the real macro must panic = compile error
-                if panicked:
-                    bump("crate:must-fail:macro-panic")
-                    res["nontrivial"].append("crate " + macro_of(t) + " " + source_of(t))
-                elif errs:
-                    bump("crate:must-fail:other-compile-error")   # rustc's lexer / parser refused it first
-                else:
+                # the front end rejected the literal: the real macro must panic = compile error, not a later type / path error
+                if cls is None:
                     res["failures"].append({"case": t, "impl": a, "phase": "crate check", "what": "%s!(%s) compiles although the macro front end rejects the literal" % (macro_of(t), source_of(t))})
+                elif cls.startswith("LATER"):
+                    res["failures"].append({"case": t, "impl": a, "phase": "crate check", "what": "%s!(%s) is refused only by a later %s, not by the macro: %s" % (macro_of(t), source_of(t), cls, errs[0])})
+                else:
+                    bump("CRATE:MUST-FAIL:" + cls)
+                    messages.append({"invocation": "%s!(%s)" % (macro_of(t), source_of(t)), "class": cls})
+                    if cls.startswith("macro-panic"):
+                        bump("crate:must-fail:macro-panic")
+                        res["nontrivial"].append("crate " + macro_of(t) + " " + source_of(t))
+                    else:
+                        bump("crate:must-fail:other-compile-error")   # rustc's lexer / parser refused it first
             else:
                 if not errs:
                     good.append((ln, t, a, val))
-                elif panicked:
+                elif cls.startswith("macro-panic"):
                     res["failures"].append({"case": t, "impl": a, "phase": "crate check", "what": "%s!(%s) is rejected by the compiled macro although the front end accepts it: %s" % (macro_of(t), source_of(t), errs[0])})
-                elif any(("literal" in e or "digit" in e or "suffix" in e or "exponent" in e or "prefix" in e) for e in errs) and not any("evaluation" in e or "mismatched" in e for e in errs):
+                elif cls == "rustc-lexer":
                     bump("crate:rustc-lexer-refuses")     # proc_macro2's fallback lexer is more liberal than rustc here
+                    messages.append({"invocation": "%s!(%s)" % (macro_of(t), source_of(t)), "class": "rustc-lexer (front end accepts)"})
                 else:
                     res["failures"].append({"case": t, "impl": a, "phase": "crate check", "what": "the expansion of %s!(%s) does not compile: %s" % (macro_of(t), source_of(t), errs[0])})
         # 2. the invocations that compile: build, run, compare with the front-end value (which the
         #    oracle has judged against the specification and the run-time parser)
-        keep = set(ln for ln, _, _, _ in good)
-        lines = main_all.split("\n")
-        main_run = "\n".join(l if (idx + 1 < first_line or idx + 1 >= first_line + len(body) or (idx + 1) in keep) else "" for idx, l in enumerate(lines))
-        d2 = write_crate("run", main_run)
+        keep = dict((ln, all_lines[ln]) for ln, _, _, _ in good)
+        d2 = write_crate("run", assemble(MAIN_IMPORTS, keep))
         rc, errors2, other2, out2 = cargo_json(["cargo", "build", "--offline", "--message-format=json"], d2, env, 1500)
         if rc != 0:
             res["failures"].append({"phase": "crate build", "what": "the crate of accepted literals does not build", "log": (json.dumps(errors2) + " " + " ".join(other2))[:1500]})
             return res
-        rc, out3 = core.run([os.path.join(tdir, "debug", "c20-run")], timeout=300)
-        got = {}
-        for l in out3.splitlines():
-            sp = l.split(" ", 1)
-            if sp[0].isdigit():
-                got[int(sp[0])] = sp[1].strip() if len(sp) > 1 else ""
+        compare(run_program(os.path.join(tdir, "debug", "c20-run"), "crate run"), good, "value-agrees", "crate run")
+        crates.append({"crate": d2, "invocations": len(items), "compiled_and_run": len(good), "must_fail": len(items) - len(good)})
+        # 3. the same program with 32-bit words (the DataSelector<32> tables of the static word arrays are the ones used):
+        #    every static_ invocation and every fifth other one
+        sub32 = [g for g in good if "static_" in macro_of(g[1]) or g[0] % 5 == 0]
+        d3 = write_crate("run32", assemble(MAIN_IMPORTS, dict((ln, all_lines[ln]) for ln, _, _, _ in sub32)))
+        env32 = dict(env, CARGO_TARGET_DIR=tdir + "-w32", RUSTFLAGS='-Awarnings --cfg force_bits="32"')
+        rc, errors3, other3, out3 = cargo_json(["cargo", "build", "--offline", "--message-format=json"], d3, env32, 1500)
         if rc != 0:
-            res["failures"].append({"phase": "crate run", "what": "the program of accepted literals exited with %d" % rc, "log": out3[-800:]})
-        for ln, t, a, val in good:
+            bad = [x for x in sub32 if x[0] in errors3]
+            for ln, t, a, val in bad[:20]:
+                res["failures"].append({"case": t, "impl": a, "phase": "crate build, 32-bit words", "what": "%s!(%s) does not compile with --cfg force_bits=\"32\": %s" % (macro_of(t), source_of(t), errors3[ln][0])})
+            if not bad:
+                res["failures"].append({"phase": "crate build, 32-bit words", "what": "the crate of accepted literals does not build with 32-bit words", "log": (json.dumps(errors3) + " " + " ".join(other3))[:1500]})
+        else:
+            compare(run_program(os.path.join(tdir + "-w32", "debug", "c20-run32"), "crate run, 32-bit words"), sub32, "w32-value-agrees", "crate run, 32-bit words")
+            multi = sum(1 for g in sub32 if "static_" in macro_of(g[1]) and (" ok static " in g[2] or " ok fstatic " in g[2] or " ok rstatic " in g[2]))
+            bump("crate:w32:static-word-array-invocations", multi)
+            crates.append({"crate": d3, "rustflags": env32["RUSTFLAGS"], "compiled_and_run": len(sub32), "static_word_array_literals": multi})
+        # 4. the dashu:: re-exports in a crate that depends on dashu under ANOTHER NAME (`$crate` hygiene of the wrappers)
+        emb = [x for x in items if "e" in x[1].split()[1]]
+        goodset = set(ln for ln, _, _, _ in good)
+        emb_good = [x for x in emb if x[0] in goodset]
+        emb_good = emb_good[::max(1, len(emb_good) // 120)][:120]     # spread over all macros
+        emb_bad = [x for x in emb if x[3] is None and x[0] in errors]
+        emb_bad = emb_bad[::max(1, len(emb_bad) // 25)][:25]
+        ren = lambda l: l.replace("dashu::", "bignum::")
+        lines4 = dict((ln, ren(all_lines[ln])) for ln, _, _, _ in emb_good + emb_bad)
+        d4 = write_crate("renamed", assemble(RENAMED_IMPORTS, lines4), RENAMED_TOML)
+        rc, errors4, other4, out4 = cargo_json(["cargo", "check", "--offline", "--message-format=json"], d4, env, 1500)
+        ok4 = True
+        for ln, t, a, val in emb_good:
             res["evaluations"] += 1
-            g = got.get(ln)
-            if g == val:
-                bump("crate:value-agrees:" + t.split()[0])
-                res["nontrivial"].append("crate " + macro_of(t) + " " + source_of(t))
+            if ln in errors4:
+                ok4 = False
+                res["failures"].append({"case": t, "impl": a, "phase": "renamed dependency", "what": "%s does not compile in a crate that depends on dashu as `bignum = { package = \"dashu\" }`: %s" % (ren(all_lines[ln]).strip(), errors4[ln][0])})
+        for ln, t, a, val in emb_bad:
+            res["evaluations"] += 1
+            cls = message_class(errors4.get(ln, [])) if ln in errors4 else None
+            if cls is None or cls.startswith("LATER"):
+                ok4 = False
+                res["failures"].append({"case": t, "impl": a, "phase": "renamed dependency", "what": "%s (outside the grammar) is not refused by the macro itself in the renamed crate: %s" % (ren(all_lines[ln]).strip(), cls)})
             else:
-                res["failures"].append({"case": t, "impl": a, "phase": "crate run", "what": "%s!(%s) built `%s`, the front end (and the specification) say `%s`" % (macro_of(t), source_of(t), g, val)})
-        res["samples"].append({"crate": d2, "invocations": len(items), "compiled_and_run": len(good), "must_fail": len(items) - len(good)})
+                bump("CRATE:RENAMED:MUST-FAIL:" + cls)
+        if rc != 0 and not errors4:
+            ok4 = False
+            res["failures"].append({"phase": "renamed dependency", "what": "cargo check of the renamed crate failed without an attributed error", "log": out4[-1500:]})
+        if ok4:
+            d5 = write_crate("renamed", assemble(RENAMED_IMPORTS, dict((ln, ren(all_lines[ln])) for ln, _, _, _ in emb_good)), RENAMED_TOML)
+            rc, errors5, other5, out5 = cargo_json(["cargo", "build", "--offline", "--message-format=json"], d5, env, 1500)
+            if rc != 0:
+                res["failures"].append({"phase": "renamed dependency", "what": "the renamed crate does not build", "log": (json.dumps(errors5) + " " + " ".join(other5))[:1500]})
+            else:
+                compare(run_program(os.path.join(tdir, "debug", "c20-renamed"), "renamed dependency"), emb_good, "renamed-value-agrees", "renamed dependency")
+                crates.append({"crate": d5, "dependency": "bignum = { package = \"dashu\", path = .. }", "compiled_and_run": len(emb_good), "must_fail": len(emb_bad)})
+    # evidence: the grid cells that were compiled (production -> bits:shape) and the message class of every refused invocation
+    for name, cells in grid_cells.items():
+        bump("GRID:" + name, len(cells))
+    res["samples"].append({"crates": crates})
+    res["samples"].append({"grid": "productions x boundary sizes of this seed (bits:generator shape)", "productions": len(grid_cells),
+                           "cells": dict((k, " ".join(v)) for k, v in sorted(grid_cells.items()))})
+    res["samples"].append({"must_fail_message_classes": messages})
     return res
